@@ -15,7 +15,7 @@
    both behaviours (c_wt) of generate_centroids' write-through (DESIGN F5). *)
 From Coq Require Import List Arith ZArith QArith Qround Bool.
 Import ListNotations.
-From SV Require Import C01.ConfMaps C18.Pipelines C18.Lemmas.
+From SV Require Import C01.ConfMaps C18.Pipelines C18.Lemmas C18.Lemmas2.
 Open Scope Q_scope.
 
 (* ---- the definitions the statements are about, restated ---- *)
@@ -215,3 +215,138 @@ Theorem c18_dp_pafs : forall kps g psigma pstride edges,
   dp_paf_inputs kps g psigma pstride edges = fn_paf_inputs kps g psigma pstride edges.
 Proof. reflexivity. Qed.
 Print Assumptions c18_dp_pafs.
+
+(* ---- (b', round 2) the blocks the property does not list, and the composed legacy pipelines ---- *)
+
+Lemma sm_pad_only_def : forall c fr, sm_pad_only c fr =
+  (exists mh mw, c_maxh c = Some mh /\ c_maxw c = Some mw /\
+     (0 < f_h fr <= mh)%Z /\ (0 < f_w fr <= mw)%Z /\ (f_h fr = mh \/ f_w fr = mw)).
+Proof. reflexivity. Qed.
+Print Assumptions sm_pad_only_def.
+
+Lemma reader_ok_def : forall fr, reader_ok fr =
+  (f_maxinst fr <> 1%nat \/ length (filter nonempty (f_raw fr)) = 1%nat).
+Proof. reflexivity. Qed.
+Print Assumptions reader_ok_def.
+
+(* SizeMatcher (pads, raises on larger images) vs apply_sizematcher (rescales to fit): NOT
+   counterparts in general (DESIGN 5/C18) — they coincide exactly where both only pad:
+   a source image with the target size in one direction, not larger in the other *)
+Theorem c18_dp_sizematcher_pad_only : forall mh mw g, gx g = aid -> gy g = aid ->
+  (0 < gh g <= mh)%Z -> (0 < gw g <= mw)%Z -> (gh g = mh \/ gw g = mw) ->
+  apply_sizematcher (Some mh) (Some mw) g = (img_pad_to mh mw g, 1) /\
+  dp_sizematcher (Some mh) (Some mw) g = Some (img_pad_to mh mw g).
+Proof. exact sizematcher_pad_only. Qed.
+Print Assumptions c18_dp_sizematcher_pad_only.
+
+Theorem c18_dp_sizematcher_raises : forall mh mw g,
+  dp_sizematcher (Some mh) (Some mw) g = None <-> (mh < gh g \/ mw < gw g)%Z.
+Proof. exact dp_sizematcher_raises. Qed.
+Print Assumptions c18_dp_sizematcher_raises.
+
+Theorem c18_dp_sizematcher_keeps_map : forall mh mw g g', dp_sizematcher mh mw g = Some g' ->
+  gx g' = gx g /\ gy g' = gy g.
+Proof. exact dp_sizematcher_keeps_map. Qed.
+Print Assumptions c18_dp_sizematcher_keeps_map.
+
+(* witness of the difference: 50x50 into 100x100 — block pads (content map unchanged),
+   function upscales by 2 (content map x -> 2x + 1/2, eff_scale 2) *)
+Theorem c18_dp_sizematcher_differs :
+  let f := fst (apply_sizematcher (Some 100%Z) (Some 100%Z) (wsrc 50 50)) in
+  exists b, dp_sizematcher (Some 100%Z) (Some 100%Z) (wsrc 50 50) = Some b /\
+    (gh b, gw b) = (100%Z, 100%Z) /\ (gh f, gw f) = (100%Z, 100%Z) /\
+    gx b = aid /\ gx f = {| ma := 2; mb := 1 # 2 |} /\
+    snd (apply_sizematcher (Some 100%Z) (Some 100%Z) (wsrc 50 50)) = 2.
+Proof. exact dp_sizematcher_differs. Qed.
+Print Assumptions c18_dp_sizematcher_differs.
+
+(* LabelsReaderDP always NaN-pads by |max_instances - num|; process_lf skips that when
+   max_instances = 1: equal unless max_instances = 1 and the frame has not exactly one instance *)
+Theorem c18_dp_labels_reader : forall M raw,
+  M <> 1%nat \/ length (filter nonempty raw) = 1%nat -> dp_labels_reader M raw = process_lf M raw.
+Proof. exact dp_labels_reader_eq. Qed.
+Print Assumptions c18_dp_labels_reader.
+
+(* the reader keeps a frame iff it has a user instance (or the filter is off); a frame with
+   predicted instances only is dropped by the reader and kept, unfiltered, by the functions *)
+Theorem c18_dp_reader_keeps : forall uo insts, dp_reader_keeps uo insts = true <->
+  (uo = false \/ exists i, In i insts /\ is_user i = true).
+Proof. exact dp_reader_keeps_spec. Qed.
+Print Assumptions c18_dp_reader_keeps.
+
+Theorem c18_dp_reader_drops_predicted_only : forall insts, existsb is_user insts = false ->
+  user_filter true insts = map snd insts /\ dp_reader_keeps true insts = false.
+Proof. exact user_filter_predicted_only. Qed.
+Print Assumptions c18_dp_reader_drops_predicted_only.
+
+(* the COMPOSED legacy pipelines (pipelines.py, augmentation off) return the in-memory dataset's
+   sample wherever the size matchers coincide (sm_pad_only) and the reader's padding is
+   process_lf's (reader_ok); keypoints given in lowest terms.  Any scale, stride, anchor, NaN pattern. *)
+Theorem c18_dp_single_pipeline : forall c fr, sm_pad_only c fr -> reader_ok fr -> insts_normal (f_raw fr) ->
+  dp_pipeline Single c fr = Some (pipeline Single Mem c fr).
+Proof. exact dp_single_eq. Qed.
+Print Assumptions c18_dp_single_pipeline.
+
+Theorem c18_dp_centroid_pipeline : forall c fr, sm_pad_only c fr -> reader_ok fr -> insts_normal (f_raw fr) ->
+  dp_pipeline Centroid c fr = Some (pipeline Centroid Mem c fr).
+Proof. exact dp_centroid_eq. Qed.
+Print Assumptions c18_dp_centroid_pipeline.
+
+(* bottom-up: same image, keypoints, PAF inputs; the confidence-map generator of the legacy
+   pipeline is fed ALL rows (no [:num] slice) ... *)
+Theorem c18_dp_bottomup_pipeline : forall c fr, sm_pad_only c fr -> reader_ok fr -> insts_normal (f_raw fr) ->
+  exists o, dp_pipeline BottomUp c fr = Some o /\
+    let d := pipeline BottomUp Mem c fr in
+    o_img o = o_img d /\ o_pts o = o_pts d /\ o_num o = o_num d /\ o_paf o = o_paf d /\
+    o_cm o = (o_pts d, gh (o_img d), gw (o_img d), c_sigma c, c_stride c) /\
+    o_cm d = (firstn (o_num d) (o_pts d), gh (o_img d), gw (o_img d), c_sigma c, c_stride c).
+Proof. exact dp_bottomup_eq. Qed.
+Print Assumptions c18_dp_bottomup_pipeline.
+
+(* ... and yet produces the same confidence maps (the C01 function), because the extra rows are NaN padding *)
+Theorem c18_dp_bottomup_confmaps : forall c fr, sm_pad_only c fr -> reader_ok fr -> insts_normal (f_raw fr) ->
+  (0 < length (filter nonempty (f_raw fr)))%nat ->
+  exists o, dp_pipeline BottomUp c fr = Some o /\
+    confmaps_of false (o_cm o) = confmaps_of false (o_cm (pipeline BottomUp Mem c fr)).
+Proof. exact dp_bottomup_confmaps. Qed.
+Print Assumptions c18_dp_bottomup_confmaps.
+
+(* top-down at scale 1: one crop about the centroid = the dataset's sqrt-2 over-crop followed by the
+   re-crop (image, keypoints, centroid, confidence-map inputs; "instance_bbox" is expressed in the frame
+   by the block and in the over-crop by the dataset, so o_tl is left out — see ex_dp_pipelines) *)
+Theorem c18_dp_topdown_pipeline_scale1 : forall c fr k,
+  c_scale c == 1 -> (k < length (filter nonempty (f_raw fr)))%nat ->
+  sm_pad_only c fr -> insts_normal (f_raw fr) ->
+  exists o, dp_pipeline (Centered k) c fr = Some o /\
+    let d := pipeline (Centered k) Mem c fr in
+    o_img o = o_img d /\ o_pts o = o_pts d /\ o_cents o = o_cents d /\ o_cm o = o_cm d.
+Proof. exact dp_topdown_eq. Qed.
+Print Assumptions c18_dp_topdown_pipeline_scale1.
+
+Theorem c18_double_crop : forall g inst cent B1 B2 h w,
+  let big := generate_crops g inst cent B1 B2 in
+  let r2 := generate_crops (cr_img big) (cr_inst big) (cr_cent big) h w in
+  let r1 := generate_crops g inst cent h w in
+  cr_img r2 = cr_img r1 /\ cr_inst r2 = cr_inst r1 /\ cr_cent r2 = cr_cent r1.
+Proof. exact double_crop. Qed.
+Print Assumptions c18_double_crop.
+
+(* non-vacuity (hypotheses met: scale 1/2 single, 3/4 centroid on a 100x80 RGB frame padded to 100x100,
+   top-down at scale 1), and what lies outside: top-down at scale 1/2 (crop then resize: 16x16 vs the
+   dataset's 32x32), a frame smaller in both directions (block pads, function rescales: other keypoints),
+   a frame larger than the target (block raises) *)
+Example ex_dp_pipelines :
+  dp_single (wcfg (1 # 2)) wframe = Some (ds_single (wcfg (1 # 2)) wframe false) /\
+  dp_centroid (wcfg (3 # 4)) wframe3 = Some (ds_centroid (wcfg (3 # 4)) wframe3 false) /\
+  (exists o, dp_topdown (wcfg 1) wframe3 1 = Some o /\
+     o_img o = o_img (ds_centered (wcfg 1) wframe3 false 1) /\
+     o_pts o = [[Some (31 # 2, 31 # 2); None; None]] /\
+     o_tl o = Some (-11 # 2, -11 # 2) /\ o_tl (ds_centered (wcfg 1) wframe3 false 1) = Some (13 # 2, 13 # 2)) /\
+  (exists o, dp_topdown (wcfg (1 # 2)) wframe 0 = Some o /\ (gh (o_img o), gw (o_img o)) = (16%Z, 16%Z) /\
+     (gh (o_img (ds_centered (wcfg (1 # 2)) wframe false 0)), gw (o_img (ds_centered (wcfg (1 # 2)) wframe false 0))) = (32%Z, 32%Z)) /\
+  (exists o, dp_bottomup (wcfg 1) {| f_h := 50%Z; f_w := 50%Z; f_c := 1%Z; f_raw := [[Some (30, 40); Some (20, 10)]]; f_maxinst := 1%nat |} = Some o /\
+     o_pts o = [[Some (30, 40); Some (20, 10)]] /\
+     o_pts (ds_bottomup (wcfg 1) {| f_h := 50%Z; f_w := 50%Z; f_c := 1%Z; f_raw := [[Some (30, 40); Some (20, 10)]]; f_maxinst := 1%nat |} false)
+       = [[Some (60, 80); Some (40, 20)]]) /\
+  dp_single (wcfg 1) {| f_h := 120%Z; f_w := 100%Z; f_c := 1%Z; f_raw := [[Some (30, 40)]]; f_maxinst := 1%nat |} = None.
+Proof. exact dp_examples. Qed.
